@@ -51,11 +51,17 @@ law = Eq(focal_length, curvature_radius / 2)
 # Mirror has refraction index equal -n, where n - refraction index of environment
 refraction_index = symbols.relative_refractive_index
 
-spherical_lens_eq = spherical_lens_law.law.subs({
+# NOTE: `refraction_index` is both a replaced symbol (`lens_refraction_index`) and part of the
+# replacement values, so the substitution must be simultaneous. A sequential substitution would
+# depend on the order in which SymPy sorts the generated symbol names.
+spherical_lens_eq = spherical_lens_law.law.subs(
+    {
     spherical_lens_law.curvature_radius_lens: curvature_radius,
     spherical_lens_law.lens_refraction_index: -1 * refraction_index,
-    spherical_lens_law.medium_refraction_index: refraction_index
-})
+    spherical_lens_law.medium_refraction_index: refraction_index,
+    },
+    simultaneous=True,
+)
 
 # Paste distances from object and image in law of spherical lens
 spherical_lens_equation = spherical_lens_eq.subs({
